@@ -24,7 +24,7 @@ MUTANT_CHECKS = {
     "revert-fix-distribute-order": ["C03"], "revert-fix-distribute-same-labware-log": ["C11"], "revert-fix-evo-selection": ["C10", "C13"],
     "revert-fix-gwl-suffix": ["C17"], "revert-fix-lvh-count": ["C11"], "revert-fix-nan-composition": ["C05"],
     "revert-fix-negative-transfer-volume": ["C07"], "revert-fix-partition-volume": ["C06"], "revert-fix-randomize-shapes": ["C15"],
-    "revert-fix-rdist-validation": ["C09", "C03"], "revert-fix-tube-id": ["C09"], "revert-fix-single-row-default-names": ["C05", "C01"],
+    "revert-fix-rdist-validation": ["C09", "C03"], "revert-fix-tube-id": ["C09"], "revert-fix-single-row-default-names": ["C05", "C01"], "revert-fix-transfer-unknown-wells": ["C08"],
 }
 
 
